@@ -614,8 +614,70 @@ def count(ctx, case, outs):
         ctx.hist("framing", framing)
 
 
+
+def patched_sendfile_layer(ctx):
+    """The eventlet worker replaces socket.sendfile on its green sockets by gunicorn.workers.geventlet._eventlet_socket_sendfile;
+    Response.sendfile() hands it (file, offset, count = what is left of the response).  Semantics of socket.sendfile: exactly
+    count bytes from offset (fewer only at EOF), the number sent is returned, the file position ends at offset + sent - for
+    partial sends and EAGAIN too.  Run on a scripted socket; oracle only (the worker model has no send loop)."""
+    import io
+    try:
+        from gunicorn.workers import geventlet as ge
+    except Exception as e:                              # eventlet not importable here: nothing to check
+        ctx.extra["patched_sendfile"] = "not checked: %r" % (e,)
+        return
+    fn = getattr(ge, "_eventlet_socket_sendfile", None)
+    if fn is None:
+        ctx.extra["patched_sendfile"] = "gunicorn.workers.geventlet has no _eventlet_socket_sendfile"
+        return
+
+    class FakeSock:
+        def __init__(self, plan):
+            self.out = bytearray()
+            self.plan = list(plan)                      # per send: None = everything, int = at most that many, "again" = EAGAIN
+
+        def gettimeout(self):
+            return None
+
+        def send(self, data):
+            step = self.plan.pop(0) if self.plan else None
+            if step == "again":
+                raise BlockingIOError(11, "try again")
+            n = len(data) if step is None else max(1, min(len(data), step))
+            self.out += bytes(data[:n])
+            return n
+    content = bytes((i * 7 + i // 251) % 256 for i in range(40000))
+    nbad = 0
+    sizes = [0, 1, 100, 8191, 8192, 8193, 10000, 16384, 16385, 20000, 39999, 40000]
+    for fsize in (0, 5, 8192, 20000, 40000):
+        data = content[:fsize]
+        for offset in (0, 3, 8192):
+            if offset > fsize:
+                continue
+            for count in [None] + [c for c in sizes if c <= fsize + 10]:
+                for plan in ([], [7, "again", 100, None, 1], ["again", 4000] * 6):
+                    f = io.BytesIO(data)
+                    sk = FakeSock(plan)
+                    try:
+                        ret = fn(sk, f, offset, count)
+                    except Exception as e:
+                        ret = "%s: %s" % (type(e).__name__, e)
+                    want = data[offset:] if not count else data[offset:offset + count]
+                    ctx.count_case(("eventlet-sendfile", fsize, offset, count, len(plan)), True)
+                    ctx.hist("patched_sendfile", "count=None" if count is None else "count<=8192" if count <= 8192 else "count>8192")
+                    pos_ok = (f.tell() == offset + len(want)) if want else True
+                    if bytes(sk.out) != want or ret != len(want) or not pos_ok:
+                        nbad += 1
+                        if nbad <= 2:
+                            ctx.violation("eventlet worker's socket.sendfile replacement: file of %d bytes, offset %d, count %r, send plan %r: "
+                                          "%d bytes went out (returned %r, file position %d), socket.sendfile sends exactly %d"
+                                          % (fsize, offset, count, plan, len(sk.out), ret, f.tell(), len(want)),
+                                          {"kind": "eventlet-sendfile", "fsize": fsize, "offset": offset, "count": count, "plan": plan})
+    ctx.log("eventlet sendfile replacement: %d failures" % nbad)
+
 def run(ctx):
     ok = ctx.build()
+    patched_sendfile_layer(ctx)
     n_rand = 2300 if ctx.quick() else 45000
     cases = fixed_cases()
     for i in range(n_rand):
@@ -714,6 +776,18 @@ def search(ctx, seeds):
 
 
 def replay(rep):
+    if rep.get("kind") == "eventlet-sendfile":
+        class C:
+            extra = {}
+            def __init__(self): self.v = []
+            def count_case(self, *a, **k): pass
+            def hist(self, *a, **k): pass
+            def log(self, *a): print(*a)
+            def violation(self, what, rep): self.v.append(what)
+        c = C()
+        patched_sendfile_layer(c)
+        print("failures:", c.v)
+        return 1 if c.v else 0
     case = rep["case"]
     outs, info, fails = run_case(case)
     for i, o in enumerate(outs):
